@@ -369,6 +369,45 @@ theorem hb_swapped_order_unsafe (hb : Heartbeat) (s : MSt) (vid count : Nat) (hv
 example : (assignAfter hbOrder ⟨1000000, [7]⟩ ⟨Mem.new, []⟩ 2 7 1).map (·.1) = some 1000001 := by decide
 example : assignAfter hbOrder ⟨1000000, [7]⟩ ⟨Mem.new, []⟩ 1 7 1 = none := by decide
 
+/-- the heartbeat judge (`hbJudge`: no grant on one of the heartbeat's volumes carries a key ≤ the reported max —
+    what the driver tests on the grants the clients of `hbrace` got from the REAL `SendHeartbeat`/`PickForWrite`)
+    accepts every grant the model can produce in the source order, at whatever point of the heartbeat the assign
+    runs -/
+theorem hb_grants_pass_judge (hb : Heartbeat) (s : MSt)
+    (hnew : ∀ v ∈ hb.vols, v ∉ s.writable) (hw : hb.maxFileKey + 1 < W) :
+    hbJudge hb.maxFileKey hb.vols (hbGrants hbOrder hb s) = none := by
+  rw [hbJudge_none_iff]
+  intro g hg _
+  unfold hbGrants at hg
+  simp only [List.mem_flatMap, List.mem_filterMap, Option.map_eq_some_iff] at hg
+  obtain ⟨k, _, vid, hvid, r, hr, rfl⟩ := hg
+  exact hb_assign_safe_in_order hb s r.2 k vid 1 r.1 hnew hvid hw hr
+
+/-- … so the model's `below` count (the driver's prediction for the `below` output of `hbrace`) is 0 -/
+theorem hb_below_zero (hb : Heartbeat) (s : MSt)
+    (hnew : ∀ v ∈ hb.vols, v ∉ s.writable) (hw : hb.maxFileKey + 1 < W) :
+    hbBelow hbOrder hb s = 0 := by
+  have h := (hbJudge_none_iff _ _ _).mp (hb_grants_pass_judge hb s hnew hw)
+  unfold hbBelow
+  rw [List.length_eq_zero_iff, List.filter_eq_nil_iff]
+  intro g hg
+  have hv : g.1 ∈ hb.vols := by
+    unfold hbGrants at hg
+    simp only [List.mem_flatMap, List.mem_filterMap, Option.map_eq_some_iff] at hg
+    obtain ⟨_, _, vid, hvid, _, _, rfl⟩ := hg
+    exact hvid
+  have := h g hg hv
+  simp
+  omega
+
+/-- non-vacuity: the model does grant (after both steps), and the grant is the one above the reported max -/
+example : hbGrants hbOrder ⟨1000000, [7, 8]⟩ ⟨Mem.new, []⟩ = [(7, 1000001), (8, 1000001)] := by decide
+
+/-- the opposite order is rejected by the judge: the grants between the two steps carry key 1 -/
+theorem hb_swapped_order_judged :
+    hbJudge 1000000 [7] (hbGrants [.register, .setMax] ⟨1000000, [7]⟩ ⟨Mem.new, []⟩) = some hbClass ∧
+    hbBelow [.register, .setMax] ⟨1000000, [7]⟩ ⟨Mem.new, []⟩ = 1 := by decide
+
 /-! ### bridges: the source the models were written from (a source edit breaks these obligations) -/
 
 theorem bridge_DefaultEtcdSteps : SwV.Gen.C13.DefaultEtcdSteps = (DefaultEtcdSteps : Int) := by decide
